@@ -10,6 +10,7 @@ import E2P.Model.NumParse
 import E2P.Spec.CompareSpec
 import E2P.Model.DateFns
 import E2P.Spec.DateSpec
+import E2P.Model.Round
 open E2P
 
 def optB : Option Bool → String
@@ -70,6 +71,40 @@ def handleDate (args : List String) : String :=
       | _, _ => "bad-op"
   | _ => "bad-op"
 
+def modeOf : String → Option RMode
+  | "round" => some .halfUp | "roundup" => some .up | "rounddown" => some .down | _ => none
+
+/-- rounding: `rnd <mode> I<digits> I<exp10> R<double> <n>` — the operand is the double made from the decimal text -/
+def handleRound (args : List String) : String :=
+  match args with
+  | m :: rest =>
+    match modeOf m, decAll rest with
+    | some mode, some [.int digits, .int ex, .flt dbl, nv] =>
+      let x := decimal (digits < 0) digits.natAbs ex
+      let model := roundFn mode (.flt dbl) nv
+      let spec := match digitsArg nv with
+        | some n => if digits.natAbs < 10 ^ 15 then optV (some (.flt (specRound mode x n))) else "-"
+        | none => "-"
+      let flags := (if rn x == dbl then "" else "rn-bad,") ++ (if digits.natAbs < 10 ^ 15 && !(round15 dbl == x) then "recover-bad," else "")
+      s!"{encRes model} | {spec} | {flags}"
+    | some mode, some [.int z, nv] =>
+      let model := roundFn mode (.int z) nv
+      let spec := match digitsArg nv with
+        | some n => optV (some (.int (quantize mode (z : Rat) n).floor))
+        | none => "-"
+      s!"{encRes model} | {spec} | "
+    | _, _ => "bad-op"
+  | _ => "bad-op"
+
+def handlePct (args : List String) : String :=
+  match decAll args with
+  | some [.int digits, .int ex, .flt dbl] =>
+    let x := decimal (digits < 0) digits.natAbs ex
+    let spec := if digits.natAbs < 10 ^ 13 then optV (some (.flt (specPercent x))) else "-"
+    s!"{encRes (percentFn (.flt dbl))} | {spec} | {if rn x == dbl then "" else "rn-bad,"}"
+  | some [.int z] => s!"{encRes (percentFn (.int z))} | {optV (some (.flt (specPercent (z : Rat))))} | "
+  | _ => "bad-op"
+
 def handle (line : String) : String :=
   match tokens line with
   | "echo" :: rest =>
@@ -78,6 +113,8 @@ def handle (line : String) : String :=
     | none => "bad-op"
   | "cmp" :: rest => handleCmp rest
   | "dt" :: rest => handleDate rest
+  | "rnd" :: rest => handleRound rest
+  | "pct" :: rest => handlePct rest
   | _ => "bad-op"
 
 partial def loop (h : IO.FS.Stream) (out : IO.FS.Stream) : IO Unit := do
